@@ -224,52 +224,93 @@ def _models_seeded(ctx):
               "LinearSVC without random_state", node=pm.node)
 
 
+def _is_seed(t, want):
+    """does the argument term carry the caller's seed / generator?"""
+    kind, name = want
+    # a generator / state constructed from the seed carries it
+    while t[0] == "call" and t[1] in (
+            "numpy.random.default_rng", "numpy.random.RandomState",
+            "numpy.random.SeedSequence", "numpy.random.Generator",
+            "numpy.random.PCG64") and len(t[2]) == 1 and not t[3]:
+        t = t[2][0]
+    if kind == "param":
+        return t == ("param", name)
+    if kind == "self":
+        return t == ("attr", ("param", "self"), name)
+    if kind == "config":
+        return t[0] == "attr" and t[2] == name and t[1][0] == "call" and \
+            t[1][1] == "mokapot.config.Config"
+    return False
+
+
 SEED_ROUTES = [
-    # (caller, callee simple name, callee formal, expected actual text)
-    ("mokapot.brew.brew", "_split", None, "rng"),
-    ("mokapot.brew.brew", "make_train_sets", "rng", "rng"),
-    ("mokapot.mokapot.main", "brew", "rng", "config.seed"),
-    ("mokapot.mokapot.main", "PercolatorModel", "rng", "config.seed"),
-    ("mokapot.confidence.assign_confidence", "LinearConfidence", "rng",
-     "rng"),
-    ("mokapot.confidence.LinearConfidence.__init__", "super().__init__",
-     None, "rng"),
+    # (caller, callee simple name, where the caller holds the seed)
+    ("mokapot.brew.brew", "_split", ("param", "rng")),
+    ("mokapot.brew.brew", "make_train_sets", ("param", "rng")),
+    ("mokapot.mokapot.main", "brew", ("config", "seed")),
+    ("mokapot.mokapot.main", "PercolatorModel", ("config", "seed")),
+    ("mokapot.confidence.assign_confidence", "LinearConfidence",
+     ("param", "rng")),
+    ("mokapot.confidence.LinearConfidence.__init__", "__init__",
+     ("param", "rng")),
     ("mokapot.confidence.LinearConfidence._assign_confidence",
-     "picked_protein", None, "self._rng"),
-    ("mokapot.picked_protein.picked_protein", "utils.groupby_max", None,
-     "rng"),
-    ("mokapot.picked_protein.picked_protein", "group_without_decoys", None,
-     "rng"),
-    ("mokapot.picked_protein.group_without_decoys", "match_decoy", "rng",
-     "rng"),
+     "picked_protein", ("self", "_rng")),
+    ("mokapot.picked_protein.picked_protein", "groupby_max",
+     ("param", "rng")),
+    ("mokapot.picked_protein.picked_protein", "group_without_decoys",
+     ("param", "rng")),
+    ("mokapot.picked_protein.group_without_decoys", "match_decoy",
+     ("param", "rng")),
 ]
+_SEED_FORMALS = ("rng", "random_state", "seed")
 
 
 def _seed_routing(ctx):
+    """At every listed call site the callee's seed parameter (rng /
+    random_state / seed) is bound - positionally or by keyword, directly or
+    through a temporary - to the seed the caller holds."""
     prog = ctx.prog
-    for caller_q, callee, formal, want in SEED_ROUTES:
+    for caller_q, callee, want in SEED_ROUTES:
         f = prog.func(caller_q)
-        calls = [n for n in ast.walk(f.node) if isinstance(n, ast.Call)
-                 and (ast.unparse(n.func) == callee
-                      or ast.unparse(n.func).endswith("." + callee))]
+        T = Terms(DefUse(prog, f))
+        calls = []
+        for n in walk_own(f.node):
+            if not isinstance(n, ast.Call):
+                continue
+            fn = n.func
+            simple = fn.attr if isinstance(fn, ast.Attribute) else (
+                fn.id if isinstance(fn, ast.Name) else None)
+            if simple == callee:
+                calls.append(n)
         ctx.require(calls, f"{caller_q}: call of {callee} not found")
         for c in calls:
-            if formal is not None:
-                got = {k.arg: ast.unparse(k.value)
-                       for k in c.keywords}.get(formal)
-                if got is None:
-                    kind, tg = prog.resolve_call(f, f.module, c)
-                    if kind == "internal" and tg[0] in prog.funcs:
-                        b = prog.bind(prog.funcs[tg[0]], c)
-                        got = ast.unparse(b[formal]) if formal in b else None
-            else:
-                got = want if any(ast.unparse(a) == want for a in c.args) \
-                    else None
-            ctx.check(got == want, "C08a-seed-routing", f,
-                      f"{callee}(...) receives the seed/generator {want}",
-                      f"{callee} is called with rng={got}: the seed is not "
-                      "passed on, so the callee falls back to an unseeded "
-                      "or default generator", node=c)
+            kind, tg = prog.resolve_call(f, f.module, c)
+            cands = [prog.funcs.get(q) or prog.funcs.get(q + ".__init__")
+                     for q in (tg or [])]
+            cands = [g for g in cands if g is not None and any(
+                p_ in _SEED_FORMALS for p_ in g.params)]
+            got = None
+            for g in cands:
+                b = prog.bind(g, c)
+                for p_ in _SEED_FORMALS:
+                    if p_ in b:
+                        got = T.of(b[p_])
+                if got is not None:
+                    break
+            if not cands:
+                # callee not resolvable (method of a parameter's class):
+                # any argument may carry the seed
+                args = [T.of(a) for a in c.args] + [
+                    T.of(k.value) for k in c.keywords if k.arg]
+                got = next((a for a in args if _is_seed(a, want)), None)
+            ctx.check(got is not None and _is_seed(got, want),
+                      "C08a-seed-routing", f,
+                      f"{callee}(...) receives the seed/generator "
+                      f"{'.'.join(want)}",
+                      f"{callee} is called with rng="
+                      f"{show(got, 60) if got is not None else None}: the "
+                      "seed is not passed on, so the callee falls back to "
+                      "an unseeded or default generator", node=c)
     # groupby_max shuffles with its rng
     g = prog.func("mokapot.utils.groupby_max")
     s = [n for n in ast.walk(g.node) if isinstance(n, ast.Call)
